@@ -46,6 +46,9 @@ def build():
     if r.returncode != 0:
         sys.stderr.write(r.stderr[-3000:])
         tool_error("harness build failed (cargo build) — cannot decide the property")
+    r = subprocess.run([HX, "consts", os.path.join(SPEC, "ImplConsts.tla")], stdout=subprocess.DEVNULL, stderr=subprocess.PIPE, text=True)
+    if r.returncode != 0:
+        tool_error("hx consts failed: " + r.stderr[-300:])
     log(f"build ok in {time.time()-t0:.1f}s")
 
 
@@ -102,7 +105,14 @@ def model_stage(pid, m, tier, seed):
     if sim:
         extra += ["-simulate", f"num={sim[0]}", "-depth", str(sim[1]), "-seed", str(seed)]
     workers = m.get("workers", 1)
-    rc, _, dt = run_tlc(m["module"], cfg, workers, m.get("heap", "8g"), meta, extra=extra,
+    menv = {}
+    if m.get("setup") and m.get("init_from_setup"):
+        init = os.path.join(WORK, f"{pid}_{name}_{tier}.init.json")
+        r = subprocess.run([HX, "state", os.path.join(SPEC, m["setup"]), init], stdout=subprocess.DEVNULL, stderr=subprocess.PIPE, text=True)
+        if r.returncode != 0:
+            tool_error(f"seed script {m['setup']} failed on the real program: {r.stderr[-500:]}")
+        menv["INIT_STATE"] = init
+    rc, _, dt = run_tlc(m["module"], cfg, workers, m.get("heap", "6g"), meta, extra=extra, env=menv,
                         timeout=m.get("timeout", {}).get(tier, 1500) if isinstance(m.get("timeout"), dict) else 1500,
                         out_path=out_path)
     states = distinct = 0
@@ -285,8 +295,11 @@ def main():
     traces = []
     drift = 0
     replayed = 0
-    for m in P.get("models", []):
-        ms = model_stage(pid, m, tier, seed)
+    models = [m for m in P.get("models", []) if tier in m.get("tiers", ["quick", "thorough"])]
+    with ThreadPoolExecutor(max_workers=8) as ex:
+        futs = [ex.submit(model_stage, pid, m, tier, seed) for m in models]
+        results = [f.result() for f in futs]
+    for m, ms in zip(models, results):
         mstats.append(ms)
         if m.get("setup"):
             tr, s = replay_stage(pid, m, ms, tier)
